@@ -33,6 +33,9 @@ FLAVOURS = {
     # glibc's fortified string functions at the highest level: object-size checks on memcpy/strcpy/... also catch overflows that stay inside
     # an enclosing object (one struct member into the next), which red-zone based tools cannot see
     'fortify': {'cc': 'gcc', 'cflags': '-O2 -g -DNDEBUG -D_FORTIFY_SOURCE=3'},
+    # strict ISO mode of the newest standard the compiler knows (__STRICT_ANSI__, no GNU extensions, C2x keywords) at the debugger-friendly -Og:
+    # code under #if __STDC_VERSION__ / #ifdef __STRICT_ANSI__, and whatever a further optimisation level does differently
+    'asan-c2x': {'cc': 'gcc', 'cflags': SAN.replace('-O1', '-Og') + ' -DNDEBUG', 'lib_cflags': '-std=c2x'},
     'asan-cp932': {'cc': 'gcc', 'cflags': SAN + ' -DNDEBUG', 'lib_cflags': '-fexec-charset=CP932'},
     'tsan':     {'cc': 'gcc', 'cflags': '-O1 -g -fsanitize=thread -DNDEBUG'},
     # libc entry points reachable from the library are interposed at link time (C11, C15, C18)
@@ -367,7 +370,7 @@ MANIFEST_TEXT['C20'] = {'technique': 'runtime monitoring: ThreadSanitizer build 
 # Configuration stripes: "which code is compiled" is an input of every property (DESIGN.md 2.9, lessons i and v).  Every functional driver
 # that does not need the libc interposition flavours also runs a thin stripe of its workload on: a library built with unsigned plain char,
 # a clang build, -march=native, MemorySanitizer, a non-UTF-8 execution charset, and the assertion-enabled build.
-_AXES = [('fortify', 'fortify', '8'), ('shortenum', 'asan-shortenum', '6'), ('nognu', 'clang-nognu', '6'), ('fs16', 'asan-fs16', '6'), ('uchar', 'uchar', '8'), ('clang', 'clang-asan', '8'), ('native', 'asan-native', '8'), ('msan', 'msan', '8'), ('cp932', 'asan-cp932', '5'), ('asan-dbg', 'asan-dbg', '6')]
+_AXES = [('fortify', 'fortify', '8'), ('shortenum', 'asan-shortenum', '6'), ('nognu', 'clang-nognu', '6'), ('fs16', 'asan-fs16', '6'), ('uchar', 'uchar', '8'), ('clang', 'clang-asan', '8'), ('native', 'asan-native', '8'), ('msan', 'msan', '8'), ('cp932', 'asan-cp932', '5'), ('asan-dbg', 'asan-dbg', '6'), ('c2x', 'asan-c2x', '5')]
 for _p in ('C01', 'C02', 'C03', 'C04', 'C05', 'C06', 'C07', 'C08', 'C09', 'C10', 'C12', 'C14', 'C17'):
     _runs = PROPS[_p]['runs']
     _drv = _runs[0]['driver']
